@@ -49,13 +49,15 @@ def make(mk, noisy, recorded=None, plateau=False):
                             seed=5)
 
 
-def run_fit(mk, noisy, seg, mode, cp0, k, recorded=None):
+def run_fit(mk, noisy, seg, mode, cp0, k, recorded=None, fixed=()):
     from nanite import model as nmodel
     idnt = make(mk, noisy, recorded, plateau=(mode == "plateau"))
     P = nmodel.models_available[mk].get_parameter_defaults()
     P["contact_point"].set(value=cp0)
     if mode == "plateau" and mk == "hertz_para":
         P["R"].set(value=2e-6)
+    for name in fixed:
+        P[name].set(vary=False)
     kw = dict(model_key=mk, params_initial=P, segment=seg, gcf_k=k,
               weight_cp=0)
     if mode == "abs-whole":
@@ -90,8 +92,9 @@ def case_fn(case):
     def viol(clause, wit, detail):
         out.append(V(PROP, clause, site=f"{mode}", witness=wit,
                      detail=detail, case=case, kind="grid"))
-    i1, p1, e1 = run_fit(mk, noisy, seg, mode, cp0, 1.0, rec)
-    ik, pk, ek = run_fit(mk, noisy, seg, mode, cp0, k, rec)
+    fixed = tuple(case.get("fixed", ()))
+    i1, p1, e1 = run_fit(mk, noisy, seg, mode, cp0, 1.0, rec, fixed)
+    ik, pk, ek = run_fit(mk, noisy, seg, mode, cp0, k, rec, fixed)
     if (e1 is None) != (ek is None):
         viol("k-invariance", f"k={k:.3g}:raises", f"k=1: {e1!r}, "
              f"k={k}: {ek!r}")
@@ -134,7 +137,7 @@ def case_fn(case):
             viol("k-invariance", f"k={k:.3g}:abscissa", f"pass {n + 1} "
                  "does not fit k x the abscissa of the k = 1 pass")
             break
-    if mode == "plateau" and (noisy or mk != "hertz_para"):
+    if mode == "plateau" and (noisy or mk != "hertz_para" or fixed):
         # shallow scan samples are ill-conditioned on noisy data and for a
         # strongly mismatched model: which local optimum is reached depends
         # on round-off, for every k; only the exact per-pass checks apply
@@ -214,6 +217,15 @@ def cases(tier):
                             cs.append({"kind": "grid", "model": mk,
                                        "noisy": noisy, "segment": seg,
                                        "mode": mode, "cp0": cp0, "k": k})
+                            # user-fixed parameters (contact point held
+                            # at its initial value, or baseline)
+                            if k in (0.5, 2.0) and not noisy:
+                                for fx in (["contact_point"], ["baseline"]):
+                                    cs.append({"kind": "grid", "model": mk,
+                                               "noisy": noisy,
+                                               "segment": seg, "mode": mode,
+                                               "cp0": cp0, "k": k,
+                                               "fixed": fx})
     if tier == "thorough":
         for f in ("fmt-jpk-fd_spot3-0192.jpk-force",
                   "fmt-jpk-fd_single_tilted-baseline-drift-mitotic_"
